@@ -76,11 +76,11 @@ extern void *__asan_region_is_poisoned(void *beg, size_t size);
 #define NSUP 16
 #define MAXIN 40   /* longest input / encoded text handled */
 #define MAXEXP 48
-#define RB 256     /* result buffer; any valid result is far smaller */
+#define RB 128     /* result buffer; any valid result is far smaller */
 #define NCLS 96
 #define NNOTE 48
 #define NOUTC 16384
-#define MAXSPACE 6
+#define MAXSPACE 8
 #define HANG_S 10
 
 enum { F_NONE, F_B32, F_B32H, F_B64, F_UTF8, F_LE, F_BE, F_ANY, NF };
@@ -258,11 +258,11 @@ typedef struct {
 	int used;
 } cls;
 
-typedef struct { int valid, resume, space; uint64_t unit; uint32_t mask; int grp, outi; } cursor;
+typedef struct { int valid, resume, space; uint64_t unit; uint32_t mask; int grp, outi, nouts; } cursor;
 
 typedef struct {
 	int id;
-	uint64_t states, transitions, evals, deaths, skipped, units;
+	uint64_t states, transitions, evals, deaths, skipped, units, masked;
 	uint64_t deaths_sp[MAXSPACE], fu16_sp[MAXSPACE], tu16_sp[MAXSPACE], skipped_sp[MAXSPACE], units_sp[MAXSPACE], states_sp[MAXSPACE];
 	int skip_from_len[MAXSPACE];
 	int aborted[MAXSPACE];
@@ -701,14 +701,15 @@ static void c20_account(sup_t *S, const kase *k, const res *r)
 
 static const uint8_t A15[] = { 0x00, 'A', '=', ' ', '\n', 0x7f, 0x80, 0xbf, 0xc2, 0xe0, 0xed, 0xef, 0xf0, 0xf4, 0xff };
 static const uint8_t R6[] = { 'A', '=', ' ', 0xbf, 0xed, 0xf0 };
-static const uint8_t R9[] = { 0x00, 'A', '=', ' ', 0x80, 0xbf, 0xe0, 0xed, 0xf0 };
-static const uint8_t R5[] = { 'A', '=', 0xbf, 0xed, 0xf0 };
+static const uint8_t R4[] = { 'A', '=', 0xbf, 0xf0 };
 static const uint8_t A3[] = { 0x00, 0xa5, 0xff };
-static const uint32_t CPS[] = { 0x0000, 0x0041, 0x007f, 0x0080, 0x07ff, 0x0800, 0xd7ff, 0xe000, 0xfeff, 0xfffd, 0xffff, 0x10000, 0x10ffff };
-#define NCPS 13
+static const uint32_t CPS[] = { 0x0000, 0x0041, 0x007f, 0x0080, 0x07ff, 0x0800, 0xd7ff, 0xe000, 0xfeff, 0xfffd, 0xffff, 0x10000, 0x1f600, 0x10ffff };
+/* U+1F600 (D83D DE00) added to the designed set: U+10000 / U+10FFFF have symmetric surrogate payloads */
+#define NCPS 14
+static const uint32_t CPS6[] = { 0x0041, 0x0080, 0x0800, 0xfeff, 0x10000, 0x1f600 };
 
 typedef struct {
-	const char *name; int kind; const uint8_t *alpha; int nalpha; int lmin, lmax;
+	const char *name; int kind; const uint8_t *alpha; const uint32_t *cps; int nalpha; int lmin, lmax;
 	uint64_t nunits; uint64_t cum[24];
 } space_t;
 static space_t g_sp[MAXSPACE]; static int g_nsp;
@@ -716,14 +717,14 @@ static uint64_t g_cap_fu16, g_cap_total;
 static int g_refrag_len0;
 
 static uint64_t c20_ipow(uint64_t b, int e) { uint64_t r = 1; while (e-- > 0) r *= b; return r; }
-static void c20_add_space(const char *name, int kind, const uint8_t *alpha, int nalpha, int lmin, int lmax)
+static void c20_add_space(const char *name, int kind, const uint8_t *alpha, const uint32_t *cps, int nalpha, int lmin, int lmax)
 {
 	space_t *s = &g_sp[g_nsp++];
-	s->name = name; s->kind = kind; s->alpha = alpha; s->nalpha = nalpha; s->lmin = lmin; s->lmax = lmax;
+	s->name = name; s->kind = kind; s->alpha = alpha; s->cps = cps; s->nalpha = nalpha; s->lmin = lmin; s->lmax = lmax;
 	uint64_t c = 0;
 	for (int l = lmin; l <= lmax; l++) {
 		s->cum[l - lmin] = c;
-		c += kind == 2 ? c20_ipow(NCPS, l) * 3 : c20_ipow((uint64_t)nalpha, l);
+		c += kind == 2 ? c20_ipow((uint64_t)nalpha, l) * 3 : c20_ipow((uint64_t)nalpha, l);
 	}
 	s->cum[lmax - lmin + 1] = c;
 	s->nunits = c;
@@ -741,7 +742,7 @@ static void c20_unit_decode(const space_t *s, uint64_t u, unit_t *U)
 		return;
 	}
 	U->enc = (int)(r % 3); r /= 3; U->ncp = l;
-	for (int i = l - 1; i >= 0; i--) { U->cp[i] = CPS[r % NCPS]; r /= NCPS; }
+	for (int i = l - 1; i >= 0; i--) { U->cp[i] = s->cps[r % (uint64_t)s->nalpha]; r /= (uint64_t)s->nalpha; }
 	for (int i = 0; i < l; i++) {
 		U->elen[0] += c20_ref_utf8(U->cp[i], U->e[0] + U->elen[0]);
 		U->elen[1] += c20_ref_utf16(U->cp[i], 0, U->e[1] + U->elen[1]);
@@ -801,38 +802,73 @@ static void c20_setup(kase *k, int kind, const unit_t *U, uint32_t mask, int in,
 	}
 }
 
-/* UTF-16 input with an odd-sized region that is not the last one: every such
- * input is known (after the class has been observed > cap times in this run)
- * to die in _dispatch_transform_from_utf16; skipping them only reduces
- * coverage and is reported (exhaustive=false, skipped count). */
-static int c20_predicted_fu16(int eff_in, int len, uint32_t mask)
+/* Crash prediction, used ONLY to skip cases after a crash class has been
+ * observed more than the cap in this run (it can only reduce coverage, which
+ * is then reported: exhaustive=false + skipped count).  Both functions follow
+ * the control flow of the pinned _dispatch_transform_from_utf16 /
+ * _dispatch_transform_to_utf16 and answer "does this input reach one of the
+ * reads that AddressSanitizer has been reporting". */
+static unsigned c20_u16at(const uint8_t *b, int pos, int be) { return be ? (unsigned)(b[pos] << 8 | b[pos + 1]) : (unsigned)(b[pos + 1] << 8 | b[pos]); }
+static int c20_predicted_fu16(int eff_in, const uint8_t *b, int len, uint32_t mask)
 {
 	if (eff_in != F_LE && eff_in != F_BE) return 0;
-	int sizes[MAXIN], n = c20_regions(len, mask, sizes);
-	for (int i = 0; i + 1 < n; i++) if (sizes[i] & 1) return 1;
+	int be = eff_in == F_BE;
+	int sizes[MAXIN], n = c20_regions(len, mask, sizes), off = 0, skip = 0;
+	for (int r = 0; r < n; off += sizes[r], r++) {
+		int size = sizes[r], sp = 0;
+		if (skip >= size) { skip -= size; continue; }
+		if (skip > 0) { sp = skip; size -= skip; skip = 0; }
+		int full = size / 2, max = full + (size & 1);
+		for (int i = 0; i < max; i++) {
+			if (i == max - 1 && max > full) return off + i * 2 + 2 <= len;   /* odd tail: 8-byte read of a 2-byte map */
+			unsigned ch = c20_u16at(b, off + sp + 2 * i, be);
+			if (ch == 0xfffe && off == 0 && i == 0) return 0;
+			if (ch == 0xfeff && off == 0 && i == 0) continue;
+			if (ch >= 0xd800 && ch <= 0xdbff) {
+				unsigned c2;
+				if (++i >= max) {
+					if (off + i * 2 + 2 > len) return 0;
+					c2 = c20_u16at(b, off + i * 2, be);
+					skip += 2;
+				} else {
+					if (i == max - 1 && max > full) return 1;                   /* src[i] straddles the region end */
+					c2 = c20_u16at(b, off + sp + 2 * i, be);
+				}
+				if (c2 < 0xdc00 || c2 > 0xdfff) return 0;
+			} else if (ch >= 0xdc00 && ch <= 0xdfff) return 0;
+		}
+	}
 	return 0;
 }
-
-/* UTF-8 input where a region that starts inside a sequence begun earlier
- * (skip > 0) itself ends inside a sequence: _dispatch_transform_to_utf16 then
- * maps the look-ahead at the wrong offset.  Same use as above (skip after cap). */
 static int c20_u8len(uint8_t b) { return (b & 0x80) == 0 ? 1 : (b & 0xe0) == 0xc0 ? 2 : (b & 0xf0) == 0xe0 ? 3 : (b & 0xf8) == 0xf0 ? 4 : 0; }
+static unsigned c20_u8seq(const uint8_t *p, int l)
+{
+	unsigned w = l == 1 ? p[0] & 0x7f : l == 2 ? p[0] & 0x1f : l == 3 ? p[0] & 0xf : p[0] & 0x7;
+	for (int i = 1; i < l; i++) w = (w << 6) | (p[i] & 0x3f);
+	return w;
+}
 static int c20_predicted_tu16(int eff_in, const uint8_t *b, int len, uint32_t mask)
 {
 	if (eff_in != F_UTF8) return 0;
 	int sizes[MAXIN], n = c20_regions(len, mask, sizes), off = 0, skip = 0;
 	for (int r = 0; r < n; off += sizes[r], r++) {
-		int size = sizes[r], pos = 0, skipped = 0;
+		int size = sizes[r], sp = 0;
 		if (skip >= size) { skip -= size; continue; }
-		if (skip > 0) { pos = skip; skipped = 1; skip = 0; }
-		while (pos < size) {
-			int l = c20_u8len(b[off + pos]);
+		if (skip > 0) { sp = skip; size -= skip; skip = 0; }
+		for (int i = 0; i < size;) {
+			int l = c20_u8len(b[off + sp + i]);
+			unsigned w;
 			if (!l) return 0;
-			if (pos + l > size) {
-				if (skipped) return 1;
-				if (off + pos + l > len) return 0;
-				skip = l - (size - pos); pos = size;
-			} else pos += l;
+			if (l + i > size) {
+				int at = off + i;                      /* the library maps at offset + i (not + the skipped bytes) */
+				if (at + l > len) return 0;
+				int l2 = c20_u8len(b[at]);
+				if (l2 == 0 || l2 > l) return 1;       /* sequence reader runs past the l mapped bytes */
+				w = c20_u8seq(b + at, l2);
+				skip += l - (size - i);
+				i = size;
+			} else { w = c20_u8seq(b + off + sp + i, l); i += l; }
+			if (w >= 0xd800 && w < 0xdfff) return 0;
 		}
 	}
 	return 0;
@@ -889,7 +925,7 @@ static void c20_unit(sup_t *S, int sp, uint64_t u, const cursor *rc)
 			int no = c20_group_outs(s->kind, in, outs);
 			int eff = in == F_ANY ? c20_ref_detect(U.bytes, U.len) : in;
 			int o0 = (first && g == g0) ? rc->outi : 0;
-			if (o0 < no && ((S->fu16_sp[sp] >= g_cap_fu16 && c20_predicted_fu16(eff, U.len, mask)) ||
+			if (o0 < no && ((S->fu16_sp[sp] >= g_cap_fu16 && c20_predicted_fu16(eff, U.bytes, U.len, mask)) ||
 					(S->tu16_sp[sp] >= g_cap_fu16 && c20_predicted_tu16(eff, U.bytes, U.len, mask)))) {
 				S->skipped += (uint64_t)(no - o0); S->skipped_sp[sp] += (uint64_t)(no - o0);
 				if (!S->skip_from_len[sp] || U.len < S->skip_from_len[sp]) S->skip_from_len[sp] = U.len ? U.len : 1;
@@ -897,7 +933,7 @@ static void c20_unit(sup_t *S, int sp, uint64_t u, const cursor *rc)
 			}
 			for (int oi = o0; oi < no; oi++) {
 				kase *k = &S->curk;
-				S->cur.valid = 1; S->cur.space = sp; S->cur.unit = u; S->cur.mask = mask; S->cur.grp = g; S->cur.outi = oi;
+				S->cur.valid = 1; S->cur.space = sp; S->cur.unit = u; S->cur.mask = mask; S->cur.grp = g; S->cur.outi = oi; S->cur.nouts = no;
 				c20_setup(k, s->kind, &U, mask, in, outs[oi]);
 				k->base0 = mask != 0 && S->ctx.v0[g][oi] == V_OK;
 				if (mask != 0 && S->ctx.h0k[g][oi]) { k->h0 = S->ctx.h0[g][oi]; k->h0_known = 1; }
@@ -906,6 +942,12 @@ static void c20_unit(sup_t *S, int sp, uint64_t u, const cursor *rc)
 				c20_run(k, data, &r);
 				if (mask == 0) { S->ctx.v0[g][oi] = (uint8_t)r.v; S->ctx.h0[g][oi] = r.hf; S->ctx.h0k[g][oi] = 1; }
 				c20_account(S, k, &r);
+				if (r.v == V_BADOBJ_F && outs[oi] == F_NONE && U.len > 2) {
+					/* the decode stage (identity output) produced a corrupt object: the other
+					 * outputs would only feed the same corrupt object to an encoder */
+					S->masked += (uint64_t)(no - oi - 1);
+					break;
+				}
 				if (mask == 0 && s->kind != 2 && in == F_NONE && outs[oi] != F_NONE && !r.fwd_null && r.v != V_BADOBJ_F &&
 				    (s->kind == 1 || U.len <= g_refrag_len0)) {
 					kase enc = *k;
@@ -966,7 +1008,7 @@ static void c20_describe_death(sup_t *S, int st, char *what, size_t cap, char *f
 	switch (S->stage) {
 	case ST_FWD: break;
 	case ST_INV: snprintf(what + l, cap - l, " while the inverse transform processes the transform's output"); break;
-	case ST_CHECKF: case ST_CHECKI: snprintf(what + l, cap - l, " while reading the returned object"); break;
+	case ST_CHECKF: case ST_CHECKI: snprintf(what + l, cap - l, " while the driver reads and releases the returned objects"); break;
 	default: snprintf(what + l, cap - l, " [outside any library call: driver stage %d]", S->stage); *driver_err = 1;
 	}
 }
@@ -1000,7 +1042,13 @@ static void c20_supervise(sup_t *S)
 		S->deaths++; S->deaths_sp[sp]++; S->transitions++; S->evals++;
 		if (strstr(fn, "transform_from_utf16")) S->fu16_sp[sp]++;
 		if (strstr(fn, "transform_to_utf16")) S->tu16_sp[sp]++;
-		S->cur.outi++; S->cur.resume = 1;
+		if (S->stage == ST_FWD && !strncmp(fn, "_dispatch_transform_from_", 25) && S->cur.nouts > S->cur.outi + 1) {
+			/* died in the decoder of the input format: dispatch_data_create_with_transform makes the
+			 * identical decode call for every output format (transform.c), so the rest of the group is masked */
+			S->masked += (uint64_t)(S->cur.nouts - S->cur.outi - 1);
+			S->cur.outi = S->cur.nouts;
+		} else S->cur.outi++;
+		S->cur.resume = 1;
 	}
 	_exit(0);
 }
@@ -1200,25 +1248,28 @@ int main(int argc, char **argv)
 	g_t0 = c20_now();
 	g_deadline = g_t0 + (g_thorough ? 840.0 : 80.0);
 	static char bound[4000];
+	g_refrag_len0 = 3;
 	if (!g_thorough) {
-		c20_add_space("bytes15", 0, A15, 15, 0, 4);
-		c20_add_space("bytes6", 0, R6, 6, 5, 5);
-		c20_add_space("encode3", 1, A3, 3, 0, 8);
-		c20_add_space("text", 2, NULL, 0, 0, 3);
-		g_cap_fu16 = 500; g_cap_total = 4000; g_refrag_len0 = 3;
-		snprintf(bound, sizeof bound, "all byte strings len<=4 over 15 byte classes + len 5 over 6 classes x all fragmentations x 28 format pairs; "
+		c20_add_space("bytes15", 0, A15, NULL, 15, 0, 4);
+		c20_add_space("bytes6-len5", 0, R6, NULL, 6, 5, 5);
+		c20_add_space("encode3", 1, A3, NULL, 3, 0, 8);
+		c20_add_space("text14", 2, NULL, CPS, NCPS, 0, 3);
+		g_cap_fu16 = 200; g_cap_total = 2500;
+		snprintf(bound, sizeof bound, "all byte strings len<=4 over 15 byte classes + len 5 over 6 classes, x all fragmentations x 28 format pairs; "
 			"base encoders: all strings len<=8 over {00,a5,ff} x all fragmentations, decoding re-checked under all fragmentations of the encoded text (<=8 chars; <=3 regions beyond), also for the len<=3 strings of the first space; "
-			"well-formed text: all sequences of <=3 code points from 13 boundary code points in UTF-8/16LE/16BE x all fragmentations");
+			"well-formed text: all sequences of <=3 code points from 14 boundary code points in UTF-8/16LE/16BE x all fragmentations");
 	} else {
-		c20_add_space("bytes15", 0, A15, 15, 0, 5);
-		c20_add_space("bytes9", 0, R9, 9, 6, 6);
-		c20_add_space("bytes5", 0, R5, 5, 7, 7);
-		c20_add_space("encode3", 1, A3, 3, 0, 10);
-		c20_add_space("text", 2, NULL, 0, 0, 4);
-		g_cap_fu16 = 8000; g_cap_total = 60000; g_refrag_len0 = 4;
-		snprintf(bound, sizeof bound, "all byte strings len<=5 over 15 byte classes + len 6 over 9 classes + len 7 over 5 classes x all fragmentations x 28 format pairs; "
-			"base encoders: all strings len<=10 over {00,a5,ff} x all fragmentations, decoding re-checked under all fragmentations of the encoded text (<=8 chars; <=3 regions beyond), also for the len<=4 strings of the first space; "
-			"well-formed text: all sequences of <=4 code points from 13 boundary code points in UTF-8/16LE/16BE x all fragmentations");
+		c20_add_space("bytes15", 0, A15, NULL, 15, 0, 4);
+		c20_add_space("encode3", 1, A3, NULL, 3, 0, 9);
+		c20_add_space("text14", 2, NULL, CPS, NCPS, 0, 3);
+		c20_add_space("bytes6-len6", 0, R6, NULL, 6, 6, 6);
+		c20_add_space("bytes4-len7", 0, R4, NULL, 4, 7, 7);
+		c20_add_space("text6-4cp", 2, NULL, CPS6, 6, 4, 4);
+		c20_add_space("bytes15-len5", 0, A15, NULL, 15, 5, 5);
+		g_cap_fu16 = 3000; g_cap_total = 30000;
+		snprintf(bound, sizeof bound, "all byte strings len<=5 over 15 byte classes + len 6 over 6 classes + len 7 over 4 classes, x all fragmentations x 28 format pairs; "
+			"base encoders: all strings len<=9 over {00,a5,ff} x all fragmentations, decoding re-checked under all fragmentations of the encoded text (<=8 chars; <=3 regions beyond), also for the len<=3 strings of the first space; "
+			"well-formed text: all sequences of <=3 code points from 14 boundary code points + all 4-code-point sequences over {U+41,U+80,U+800,U+FEFF,U+10000,U+1F600} in UTF-8/16LE/16BE x all fragmentations");
 	}
 	shm_t *sh = mmap(NULL, sizeof(shm_t), PROT_READ | PROT_WRITE, MAP_SHARED | MAP_ANONYMOUS, -1, 0);
 	if (sh == MAP_FAILED) { perror("mmap"); return 2; }
@@ -1242,11 +1293,11 @@ int main(int argc, char **argv)
 	/* merge (order independent) */
 	static cls classes[NCLS * 2], notes[NNOTE * 2];
 	static uint64_t outc[NOUTC * NSUP]; size_t nout = 0;
-	uint64_t states = 0, transitions = 0, evals = 0, deaths = 0, skipped = 0, units = 0, skipped_sp[MAXSPACE] = { 0 }, deaths_sp[MAXSPACE] = { 0 };
+	uint64_t states = 0, transitions = 0, evals = 0, deaths = 0, skipped = 0, units = 0, masked = 0, skipped_sp[MAXSPACE] = { 0 }, deaths_sp[MAXSPACE] = { 0 };
 	int timeout = 0, aborted[MAXSPACE] = { 0 }, skip_from[MAXSPACE] = { 0 };
 	for (int i = 0; i < NSUP; i++) {
 		sup_t *S = &sh->sup[i];
-		states += S->states; transitions += S->transitions; evals += S->evals; deaths += S->deaths; skipped += S->skipped; units += S->units;
+		states += S->states; transitions += S->transitions; evals += S->evals; deaths += S->deaths; skipped += S->skipped; units += S->units; masked += S->masked;
 		timeout |= S->timeout;
 		for (int s = 0; s < g_nsp; s++) {
 			aborted[s] |= S->aborted[s]; skipped_sp[s] += S->skipped_sp[s]; deaths_sp[s] += S->deaths_sp[s];
@@ -1267,7 +1318,7 @@ int main(int argc, char **argv)
 	uint64_t distinct = 0;
 	qsort(outc, nout, sizeof(uint64_t), c20_u64cmp);
 	for (size_t a = 0; a < nout; a++) if (a == 0 || outc[a] != outc[a - 1]) distinct++;
-	int exhaustive = !timeout && !skipped && !derr;
+	int exhaustive = !timeout && !skipped && !masked && !derr;
 	for (int s = 0; s < g_nsp; s++) if (aborted[s]) exhaustive = 0;
 	double wall = c20_now() - g_t0;
 
@@ -1282,12 +1333,13 @@ int main(int argc, char **argv)
 			g_sp[s].name, (unsigned long long)skipped_sp[s], skip_from[s], (unsigned long long)deaths_sp[s]);
 		if (aborted[s]) bl += c20_app(bound + bl, bl < sizeof bound ? sizeof bound - bl : 0, "; space %s ABORTED after %llu crashing cases", g_sp[s].name, (unsigned long long)deaths_sp[s]);
 	}
+	if (masked) bl += c20_app(bound + bl, bl < sizeof bound ? sizeof bound - bl : 0, "; %llu output formats not run for inputs whose decode stage had already crashed or returned a corrupt object", (unsigned long long)masked);
 	if (timeout) c20_app(bound + bl, bl < sizeof bound ? sizeof bound - bl : 0, "; CUT by the wall-clock deadline");
 	fprintf(jf, "{\"name\": \"transform_c20\", \"property\": \"C20\", \"tier\": \"%s\", \"bound\": \"%s\",\n", tier, bound);
 	fprintf(jf, " \"states\": %llu, \"transitions\": %llu, \"evaluations\": %llu, \"distinct_outcomes\": %llu, \"traces_validated_against_impl\": %llu,\n",
 		(unsigned long long)states, (unsigned long long)transitions, (unsigned long long)evals, (unsigned long long)distinct, (unsigned long long)evals);
-	fprintf(jf, " \"units\": %llu, \"crashing_cases\": %llu, \"cases_skipped\": %llu, \"exhaustive\": %s, \"wall_s\": %.1f,\n",
-		(unsigned long long)units, (unsigned long long)deaths, (unsigned long long)skipped, exhaustive ? "true" : "false", wall);
+	fprintf(jf, " \"units\": %llu, \"crashing_cases\": %llu, \"cases_skipped\": %llu, \"cases_masked_by_decode_failure\": %llu, \"exhaustive\": %s, \"wall_s\": %.1f,\n",
+		(unsigned long long)units, (unsigned long long)deaths, (unsigned long long)skipped, (unsigned long long)masked, exhaustive ? "true" : "false", wall);
 	fprintf(jf, " \"spaces\": [");
 	for (int s = 0; s < g_nsp; s++) {
 		uint64_t us = 0, ss = 0;
